@@ -750,6 +750,26 @@ func runC03(r *Rand, tier string, o *Out) {
 			o.Count("case:string-length-sweep")
 		}
 	}
+	// long lists of elements of a fixed size — a few thousand bytes, on both sides of the multiples of 4096 — followed by
+	// another member, and inside a list of such records: through the three codecs (not maps: the reflection codec takes
+	// a Go map, whose order is not the wire's)
+	for _, n := range []int{1023, 1024, 1025, 1500, 2600, 4000} {
+		if tier != "thorough" && (n == 1023 || n == 4000) {
+			continue
+		}
+		num := func(k uint64) *tval { return &tval{kind: 'n', n: k} }
+		l := &tval{kind: '['}
+		bs := &tval{kind: '['}
+		for j := 0; j < n; j++ {
+			l.elems = append(l.elems, num(uint64(j*7+1)))
+			bs.elems = append(bs.elems, num(uint64(j%251)))
+		}
+		rec := func(k uint64) *tval { return &tval{kind: '(', elems: []*tval{l, num(k)}} }
+		c03CaseV(r, o, parseSigT("([I]I)"), rec(77))
+		c03CaseV(r, o, parseSigT("([C]s)"), &tval{kind: '(', elems: []*tval{bs, {kind: 's', s: []byte("after")}}})
+		c03CaseV(r, o, parseSigT("[([I]I)]"), &tval{kind: '[', elems: []*tval{rec(1), rec(2)}})
+		o.Count("case:long-list-of-fixed-size-elements-then-a-member")
+	}
 	// one dynamic value that holds many dynamic values, side by side rather than inside one another: a list / a map
 	// of them in a value, alone and next to another member; a few levels of short lists of values
 	{
